@@ -519,11 +519,79 @@ def canon_term(t, depth=0):
     return tuple(canon_term(x, depth + 1) if isinstance(x, tuple) else x for x in t)
 
 
-def fingerprint(body, ev, kind):
+_CLOSURE_CTX = {}
+
+
+def closure_context(ctx, key):
+    """For a closure handed to an iterator adaptor (`it.map(|x| ..)`, `.for_each`, `.filter_map`, `.any`, ..): (captured terms as seen by the
+    function that creates it, the iterator's type), so that what the closure does with its element can be named the same way as the body of
+    `for x in it { .. }`.  None when the closure is not (only) used that way."""
+    ck = (id(ctx.fx), key)
+    if ck in _CLOSURE_CTX:
+        return _CLOSURE_CTX[ck]
+    res = None
+    creator = key.rsplit("::{closure", 1)[0]
+    if ctx.fx.fn(creator) is not None:
+        uses = set()
+        for p in ctx.paths(creator) or []:
+            for e in p.events:
+                if e.kind != "call":
+                    continue
+                for a in e.args[1:]:
+                    a0 = strip_refs(a)
+                    if isinstance(a0, tuple) and a0[:2] == ("agg", "closure") and a0[2] == key:
+                        full = e.data.get("full") or ""
+                        m = re.match(r"^<(.*) as std::iter::Iterator>::(map|for_each|filter_map|filter|any|all|find|find_map|position|flat_map|try_for_each)\b", full)
+                        uses.add((a0[4], m.group(1) if m else None))
+        if len(uses) == 1:
+            caps, ty = next(iter(uses))
+            if ty is not None:
+                res = (caps, ty)
+    _CLOSURE_CTX[ck] = res
+    return res
+
+
+def each_elem(body, t):
+    """`(it.next() as Some).0` of a loop-carried iterator local, named by the iterator's type: the element a `for` loop is looking at"""
+    if isinstance(t, tuple) and len(t) > 2 and t[0] == "field" and t[2] == 0 and isinstance(t[1], tuple) and t[1][0] == "downcast" and t[1][2] == "Some" \
+            and is_call(strip_refs(t[1][1]), "Iterator>::next") and call_args(strip_refs(t[1][1])):
+        r = call_args(strip_refs(t[1][1]))[0]
+        if isinstance(r, tuple) and r[0] == "refmut" and isinstance(r[1], tuple) and r[1][0] == "loc" and isinstance(r[1][1], int) and 0 <= r[1][1] < len(body.f["locals"]):
+            if len(r[1]) > 2 and isinstance(r[1][2], tuple) and r[1][2][0] == "havoc":
+                return ("call", "each<%s>" % body.f["locals"][r[1][1]]["ty"], (), (), None)
+    return None
+
+
+def _rewrite(t, f, depth=0):
+    if not isinstance(t, tuple) or not t or depth > 40:
+        return t
+    r = f(t)
+    if r is not None:
+        return r
+    return tuple(_rewrite(x, f, depth + 1) if isinstance(x, tuple) else x for x in t)
+
+
+def fingerprint(body, ev, kind, ctx=None):
+    cc = closure_context(ctx, body.key) if ctx is not None and "::{closure" in body.key else None
+
+    def pre(t):
+        # the element under the loop / the closure's element argument, and the closure's captures as the creating function sees them
+        t = _rewrite(t, lambda x: each_elem(body, x))
+        if cc is not None:
+            caps, ty = cc
+
+            def sub(x):
+                if x == ("param", 2):
+                    return ("call", "each<%s>" % ty, (), (), None)
+                if x[0] == "field" and len(x) > 2 and isinstance(x[1], tuple) and x[1] in (("deref", ("param", 1)), ("param", 1)) and isinstance(x[2], int) and x[2] < len(caps):
+                    return caps[x[2]]
+                return None
+            t = _rewrite(t, sub)
+        return t
     if ev.kind == "assert":
-        txt = kind + "|" + "|".join(named(body, canon_term(m)) for m in ev.mops)
+        txt = kind + "|" + "|".join(named(body, canon_term(pre(m))) for m in ev.mops)
     else:
-        args = [canon_term(a) for a in ev.args]
+        args = [canon_term(pre(a)) for a in ev.args]
         if kind.split("::")[-1] in ("index", "index_mut") and len(args) == 2:
             args[1] = canon_range(args[0], args[1])
         txt = kind + "|" + "|".join(named(body, a) for a in args)
@@ -564,7 +632,7 @@ def run(ctx):
             if not evs:
                 ctx.violation("PANIC", key, inst_base + "#unreached-%d" % n, "panic-capable site not covered by any enumerated path (engine limitation): failing closed", body.span_of(bb))
                 continue
-            fp, txt = fingerprint(body, evs[0][1], kind)
+            fp, txt = fingerprint(body, evs[0][1], kind, ctx)
             dup = seen_fp.get((key, inst_base, fp), 0)
             seen_fp[(key, inst_base, fp)] = dup + 1
             inst = "%s[%s]%s" % (inst_base, fp, "" if dup == 0 else "#%d" % (dup + 1))
@@ -589,7 +657,10 @@ def run(ctx):
                 if cr:
                     ctx.ok("PANIC", key, inst, "discharged in the context of every call site (%s)" % cr, body.span_of(bb))
                     continue
-            ex = [x for x in exemptions if x["item"] == key and x["fingerprint"] == fp]
+            # an exemption belongs to a function together with its closures: the same operation on the same (canonically named) operands,
+            # whether it is written in the body of a `for` loop or in the closure of `.map(..)`
+            base_ = key.split("::{closure", 1)[0]
+            ex = [x for x in exemptions if x["item"].split("::{closure", 1)[0] == base_ and x["fingerprint"] == fp]
             if ex and ex[0].get("requires"):
                 # the invariant rests on another property's structural rules: they must hold on this tree, or the exemption lapses
                 rq = ex[0]["requires"]
@@ -599,7 +670,7 @@ def run(ctx):
                                   % (kind, rq["property"], rq["rules"], bad[:2], ex[0]["invariant"][:160]), body.span_of(bb))
                     continue
             if ex:
-                used_ex.add((key, fp))
+                used_ex.add((ex[0]["item"], fp))
                 ctx.ok("PANIC", key, inst, "reasoned exemption: " + ex[0]["invariant"], body.span_of(bb), nontrivial=False)
                 continue
             ctx.violation("PANIC", key, inst, "panic-capable %s is not discharged on %d of %d path(s) through it and has no exemption: operands %s" % (kind, undis, len(evs), txt[:300]), body.span_of(bb))
